@@ -155,6 +155,8 @@ class Refused(Exception):
 
 
 MAX_SHIFT = 65536     # Spec.Arith.max_shift
+HUGE_SHIFT = 1 << 24  # a shift by that much still takes a moment only, were it carried out
+ALLOW_HUGE = False
 
 
 LIMIT = 1 << 96
@@ -222,6 +224,8 @@ def ev(e, syms, dot, enc, errs=None):
                 fail("arithmetic-error", 0)
                 left = not left     # the code goes on with the opposite shift by -b
             n = abs(b)
+            if left and n > HUGE_SHIFT and not ALLOW_HUGE:
+                raise TooBig()      # only the dedicated stream tries counts that would take minutes if they were carried out
             if left and n > MAX_SHIFT:
                 # refused, not computed: the evaluation of the whole operand stops here
                 if errs is None:
